@@ -7,6 +7,7 @@ import (
 	"flag"
 	"fmt"
 	"os"
+	"time"
 
 	"godsverif/core"
 	_ "godsverif/props"
@@ -49,12 +50,13 @@ func main() {
 		dir := fs.String("dir", "", "")
 		only := fs.Int("only", -1, "")
 		verbose := fs.String("verbose", "", "")
+		budget := fs.Int64("budget", 0, "per-case wall-clock budget in ms (0 = none)")
 		fs.Parse(os.Args[2:])
 		p := core.Lookup(*prop)
 		if p == nil {
 			os.Exit(2)
 		}
-		core.ChildMain(p, *tier, *seed, *k, *w, *n, *dir, *only, *verbose)
+		core.ChildMain(p, *tier, *seed, *k, *w, *n, *dir, *only, *verbose, time.Duration(*budget)*time.Millisecond)
 	case "replay":
 		fs := flag.NewFlagSet("replay", flag.ExitOnError)
 		file := fs.String("file", "", "")
